@@ -151,9 +151,10 @@ Qed.
 Definition same_content (m : amap rv) (c : cache) : Prop := forall id v, lookup m id = Some v <-> In (id, v) c.
 
 Theorem load_prunes_to_cache_pf (m : amap rv) :
-  sorted_from 0 m -> (forall k v, In (k, v) m -> k < max_id) ->
+  sorted_from 0 m -> (forall k v, In (k, v) m -> k < two64) ->
   let res := load_regions never_fails check_and_put m [] in
-  fst (fst (fst res)) = RDone /\ same_content (snd (fst res)) (snd res) /\ disjoint (snd res) /\ ids_distinct (snd res).
+  fst (fst (fst res)) = RDone /\ same_content (snd (fst res)) (snd res) /\ disjoint (snd res) /\ ids_distinct (snd res) /\
+  snd (fst (fst res)) = m.
 Proof.
   intros Hs Hmax res.
   pose proof (page_loop_spec never_fails check_and_put region_limit_min region_min_pos Jcache Jcache_mono Jcache_step
@@ -164,11 +165,9 @@ Proof.
   fold (load_regions never_fails check_and_put m []) in NF. fold res in NF.
   destruct P as (P1 & P2 & _).
   assert (Hd : fst (fst (fst res)) = RDone) by (destruct (fst (fst (fst res))); [reflexivity|contradiction|contradiction]).
-  split; [exact Hd|]. destruct (P2 Hd) as [_ F].
+  split; [exact Hd|]. destruct (P2 Hd) as [Hacc F].
   assert (Htodo : todo m 0 = m).
-  { rewrite todo_from_zero by exact Hs. clear - Hmax. induction m as [|[k v] r IH]; cbn [filter]; [reflexivity|].
-    cbn [fst]. replace (k <? max_id) with true by (symmetry; specialize (Hmax k v (or_introl eq_refl)); lia).
-    f_equal. apply IH. intros k' v' H. apply (Hmax k' v'). right. exact H. }
+  { rewrite todo_from_zero by exact Hs. apply filter_all_below. exact Hmax. }
   rewrite Htodo in F. unfold final in F.
   assert (P0 : PInv m m [] 0).
   { constructor; [exact Hs|intros id v []| |reflexivity|constructor|intros a a' []].
@@ -177,9 +176,52 @@ Proof.
               (fun k v H => proj1 (in_lookup m 0 k v Hs) H)
               (fun id v' Hl _ => proj2 (in_lookup m 0 id v' Hs) Hl)) as (b' & [Qs Qin Qall Qrest Qids Qdisj] & Qnone).
   cbv zeta in *. rewrite <- F in *. cbn [fst snd] in *.
-  split; [|split; [exact Qdisj|exact Qids]].
+  split; [|split; [exact Qdisj|split; [exact Qids|rewrite Hacc, Htodo; reflexivity]]].
   intros id v. split.
   - intros Hl. destruct (Z.lt_ge_cases id b') as [Hb|Hb]; [apply Qall; assumption|].
     rewrite (Qrest id Hb), (Qnone id Hb) in Hl. discriminate.
   - intros Hin. exact (proj1 (Qin id v Hin)).
+Qed.
+
+(* ---------- the same at the level of the operation (either backend) ---------- *)
+Lemma in_ins_sorted {V} (x y : Z * V) l : In x (ins_sorted y l) <-> x = y \/ In x l.
+Proof.
+  induction l as [|z l IH]; cbn [ins_sorted In]; [intuition|].
+  destruct (fst y <=? fst z); cbn [In]; [intuition|]. rewrite IH. intuition.
+Qed.
+Lemma in_sort_by_id {V} (x : Z * V) l : In x (sort_by_id l) <-> In x l.
+Proof.
+  unfold sort_by_id. induction l as [|y l IH]; cbn [fold_right In]; [tauto|]. rewrite in_ins_sorted, IH. intuition.
+Qed.
+
+Theorem prune_op_pf s : SInv s -> (use_rs s = true \/ budget s = None) ->
+  (forall k v, In (k, v) (regions_of s (use_rs s)) -> k < two64) ->
+  exists c after,
+    snd (run_op s OLoadIntoCache) = BCache RDone (regions_of s (use_rs s)) c after /\
+    same_content after c /\ disjoint c /\
+    regions_of (fst (run_op s OLoadIntoCache)) (use_rs s) = after /\
+    (* nothing that was pruned is still waiting in the write-back batch *)
+    (forall id, lookup (regions_of s (use_rs s)) id <> None -> lookup after id = None ->
+                In id (map fst (batch (fst (run_op s OLoadIntoCache)))) -> use_rs s = false) /\
+    (batch s = [] -> batch (fst (run_op s OLoadIntoCache)) = []).
+Proof.
+  intros I Hf Hb.
+  assert (Hs : sorted_from 0 (regions_of s (use_rs s))) by (destruct I; unfold regions_of; destruct (use_rs s); assumption).
+  assert (Hfaults : faults_of s (use_rs s) = never_fails).
+  { unfold faults_of. destruct (use_rs s) eqn:E; [reflexivity|]. destruct Hf as [Hf|Hf]; [discriminate|]. rewrite Hf. reflexivity. }
+  pose proof (load_prunes_to_cache_pf (regions_of s (use_rs s)) Hs Hb) as P. cbv zeta in P.
+  cbn [run_op]. rewrite Hfaults.
+  destruct (load_regions never_fails check_and_put (regions_of s (use_rs s)) []) as [[[st acc] m'] c]. cbn [fst snd] in *.
+  destruct P as (P1 & P2 & P3 & _ & P5). subst st acc.
+  exists (sort_by_id c), m'. split; [reflexivity|]. split.
+  { intros id v. rewrite in_sort_by_id. apply P2. }
+  split.
+  { intros a a' Ha Ha' Hne. apply (proj1 (in_sort_by_id a c)) in Ha. apply (proj1 (in_sort_by_id a' c)) in Ha'. apply P3; assumption. }
+  destruct (use_rs s) eqn:Ers; cbn [fst regions_of set_regions ldb base_r batch].
+  - split; [reflexivity|]. split.
+    + intros id Hin Hout Hbatch. exfalso. apply in_map_iff in Hbatch as ([k v] & E & Hk). cbn in E. subst k.
+      apply filter_In in Hk as [_ Hk]. cbn [fst] in Hk.
+      destruct (lookup (ldb s) id); [|contradiction]. rewrite Hout in Hk. discriminate.
+    + intros ->. reflexivity.
+  - split; [reflexivity|]. split; [intros; reflexivity|]. intros E. exact E.
 Qed.
